@@ -64,7 +64,9 @@ class Grover(QAlgorithm):
         else:
             self.oracle = oracle
 
-        oracle_qc = self.oracle.circuit()
+        # Work on a copy: the phase qubit and gate below must not be added to the
+        # circuit of the oracle object given by the caller
+        oracle_qc = self.oracle.circuit().copy()
 
         # Add negative phase to result
         oracle_qc.add_qubit(name="_ret_phased")
